@@ -26,7 +26,8 @@ func (tb *tokenBucket) adjustOnFailure(statusCode int) {
 	// For server errors like 503 or 5xx, reduce the refill rate exponentially.
 	case statusCode >= 500:
 		tb.failureCount++
-		newRefillRate := max(tb.refillRate*math.Pow(0.5, float64(tb.failureCount)), minRefillRate)
+		// The floor must not exceed the configured rate, or a 5xx would speed a slow bucket up
+		newRefillRate := max(tb.refillRate*math.Pow(0.5, float64(tb.failureCount)), min(minRefillRate, tb.idealRate))
 		tb.refillRate = newRefillRate
 		tb.tokens = 0
 
